@@ -283,14 +283,35 @@ def _flow_unsanitised(fi, g: CFG, site: int, arg, v: str, only_if_reaches: Optio
                 return f"{v} used directly"
             continue
         chain_vars = {v, x} | set(car)
+        guards = _guards_for(g, chain_vars)
+
+        def flow_ok(a: int, seen: frozenset) -> Optional[str]:
+            """the tainted value stored at assignment node a is sanitised before `site` (None) or a description of the
+            unsanitised link.  A link is sanitised when a guard of a chain variable lies on every path a -> site, or when
+            everything the assigned value was derived from was sanitised before."""
+            if g.every_path_passes(guards, site, src=a):
+                return None
+            val = g.nodes[a].stmt.value
+            for m in sorted(_mentions(val, {v} | set(car))):
+                if m == v:
+                    if not _sanitised_direct(g, a, v):
+                        return f"L{g.nodes[a].lineno}: {g.nodes[a].text()[:60]}"
+                    continue
+                for a2 in car[m]:
+                    if a2 == a or a2 in seen or a not in g.reach([a2]):
+                        continue
+                    r = flow_ok(a2, seen | {a})
+                    if r is not None:
+                        return r
+            return None
+
         for a in car[x]:
             # flows entry -> a (x := f(v)) -> site
             if site not in g.reach([a]):
                 continue
-            before = _sanitised_direct(g, a, v)
-            after = g.every_path_passes(_guards_for(g, chain_vars), site, src=a)
-            if not (before or after):
-                return f"{v} -> {x} (L{g.nodes[a].lineno}: {g.nodes[a].text()[:60]})"
+            r = flow_ok(a, frozenset())
+            if r is not None:
+                return f"{v} -> {x} ({r})"
     return None
 
 
